@@ -231,6 +231,14 @@ def connOp (slot : Option ConnSlot) : List String → Option ConnSlot × String
           (some { s with conn := { c with zoracle := [] } },
            s!"rc={rc} consumed={c.out.read} len={b.length} ev=[{showEvents c.events}] zleft={left}{unsupportedMark c}")
         | _, _ => (slot, "bad-op")
+      | ["req", h, zt] => match bytesOfHex h, parseZTrace zt with
+        | some b, some zs =>
+          -- request decompression: the recorded inflate() results of this data call
+          let (c, rc) := reqData s.cfg (some b) b.length { c with zoracle := zs, zused := true }
+          let left := c.zoracle.length
+          (some { s with conn := { c with zoracle := [] } },
+           s!"rc={rc} consumed={c.inn.read} len={b.length} ev=[{showEvents c.events}] zleft={left}{unsupportedMark c}")
+        | _, _ => (slot, "bad-op")
       | ["reqgap", n] => match n.toNat? with
         | some k =>
           let (c, rc) := reqData s.cfg none k c
